@@ -75,23 +75,43 @@ theorem checkColumns_single (n : Nat) : ∀ (out : List VarBind) (prev : List Oi
       rw [List.drop_set_of_lt (by omega)]
     · simp [hlt]
 
+/-- a response with one binding per requested OID needs no completion -/
+theorem completeRow_full (x : Exchange) (oids : List Oid) (fuel : Nat) (vbs : List VarBind)
+    (h : oids.length ≤ vbs.length) : completeRow x oids fuel vbs = .ok vbs := by
+  cases fuel with
+  | zero => rfl
+  | succ f =>
+    unfold completeRow
+    have : ¬ vbs.length < oids.length := by omega
+    simp [this]; rfl
+
 /-- **Bulk size 1 ≡ GETNEXT**, on the Python-faithful model and for ANY agent function: the fetcher
     of `bulkwalk(bulk_size=1)` accepts, refuses and returns exactly what `multigetnext` does … -/
-theorem bulkFetcher_one (a : AgentFn) (db : List VarBind) (oids : List Oid) :
-    bulkFetcher (exchangeOf a db {}) 1 oids = multigetnext (exchangeOf a db {}) oids := by
-  unfold bulkFetcher multigetnext bulkVarbinds
+theorem bulkVarbinds_one (a : AgentFn) (db : List VarBind) (oids : List Oid) :
+    bulkVarbinds (exchangeOf a db {}) [] oids 1 = .ok (Agent.getnextResp a oids) := by
+  unfold bulkVarbinds
   simp only [exchangeOf, List.nil_append, List.length_nil, bind, Except.bind, getbulk_one_row]
   have hlen : (Agent.getnextResp a oids).length = oids.length := by simp [Agent.getnextResp]
   have hb : Gen.bulkBound ((0 : Nat) : Int) (oids.length : Int) ((1 : Nat) : Int) = oids.length := by
     simp only [Gen.bulkBound]; omega
   have h1 : ¬ ((oids.length : Int) > Gen.bulkBound ((0 : Nat) : Int) (oids.length : Int) ((1 : Nat) : Int)) := by
     rw [hb]; omega
-  simp only [pure, Except.pure, hlen, bne_self_eq_false, Bool.false_eq_true, ↓reduceIte]
-  rw [if_neg h1]
+  simp only [hlen]
+  rw [if_neg h1]; rfl
+
+theorem bulkFetcher_one (a : AgentFn) (db : List VarBind) (oids : List Oid) :
+    bulkFetcher (exchangeOf a db {}) 1 oids = multigetnext (exchangeOf a db {}) oids := by
+  have hlen : (Agent.getnextResp a oids).length = oids.length := by simp [Agent.getnextResp]
   have hout : ((Agent.getnextResp a oids).takeWhile notEom).length ≤ oids.length := by
     rw [← hlen]; exact (List.takeWhile_sublist _).length_le
-  show (if checkColumns oids.length oids 0 ((Agent.getnextResp a oids).takeWhile notEom) = true then _ else _) = _
+  unfold bulkFetcher
+  rw [bulkVarbinds_one]
+  simp only [bind, Except.bind]
+  rw [completeRow_full _ oids oids.length _ (by omega)]
+  simp only []
   rw [checkColumns_single oids.length _ oids 0 rfl (by omega), List.drop_zero]
+  unfold multigetnext
+  simp [exchangeOf, bind, Except.bind, hlen, pure, Except.pure]
 
 /-- … hence the whole bulk walk with one repetition per request is the GETNEXT walk: same
     requests (as OID lists), same yields in the same order, same ending. -/
